@@ -443,7 +443,8 @@ def b_sorted(self, a, kw):
   uninterpreted strict total order lt!<Sort> (python string / tuple comparison)."""
   if kw and set(kw) != {'key'}:
     raise OutsideSubset('sorted() with reverse=: give a Handler in the sidecar bindings')
-  it = as_iter(self, a[0])
+  g = _gen(self, a[0], 'list')      # sorted(<generator expression>): sort the materialised list
+  it = as_iter(self, g if g is not None else a[0])
   es = it.elem_sort
   if 'key' in kw:
     return _sorted_by_key(self, it, es, kw['key'])
